@@ -1,5 +1,5 @@
 (* C04 - key derivation uses the specified inputs, independent of how the seed was obtained. *)
-From PS Require Import Base PackDefs ApiDefs SpecDefs SpecApi PackTheorems ApiLemmas RefineProofs ApiTheorems.
+From PS Require Import Base PackDefs ApiDefs SpecDefs SpecApi PackTheorems ApiLemmas RefineProofs ApiTheorems HeldProofs.
 From PS.Gen Require Import Consts Langs.
 Local Open Scope N_scope.
 
@@ -30,3 +30,10 @@ Example C04_salt : spec_kdf_salt (mkaseed (repeat 7 19) 700 5) 2 =
   [80; 79; 76; 89; 83; 69; 69; 68; 32; 107; 101; 121; 0; 255; 255; 255; 2; 0; 0; 0; 188; 2; 0; 0; 5; 0; 0; 0; 0; 0; 0; 0]
   /\ length (spec_kdf_password (mkaseed (repeat 7 19) 700 5)) = 32%nat.
 Proof. split; reflexivity. Qed.
+
+(* the inputs handed to the KDF do not depend on the feature set enabled when polyseed_keygen is called *)
+Theorem C04_keygen_independent_of_enabled_set : forall sgn st r h coin size,
+  snd (step sgn langs (with_reserved r st) (OpKeygen h coin size)) = snd (step sgn langs st (OpKeygen h coin size)) /\
+  snd (fst (step sgn langs (with_reserved r st) (OpKeygen h coin size))) = snd (fst (step sgn langs st (OpKeygen h coin size))).
+Proof. intros sgn st r h coin size. rewrite (held_independent sgn langs st r (OpKeygen h coin size) eq_refl). split; reflexivity. Qed.
+Print Assumptions C04_keygen_independent_of_enabled_set.
